@@ -151,6 +151,15 @@ theorem schmidt_outcomes (amps : Array (Cx ℝ)) :
     · exact Or.inl ⟨by rw [hd]; exact Nat.mul_pos hpos hpos, _, schmidt_square amps d hpos hd⟩
   · exact Or.inr (Or.inl ((schmidt_nonsquare amps).mp hsq))
 
+/-- T6. The setup-level Schmidt number is the array-level function applied to the setup's sampled
+amplitudes; in particular it errs exactly when the number of grid points is not a perfect square. -/
+theorem setup_wrapper (J : ℝ → ℝ → Cx ℝ) (points : List (ℝ × ℝ)) :
+    schmidtSetup J points = schmidt ((points.map fun p => J p.1 p.2).toArray) ∧
+      ((¬ ∃ d, points.length = d * d) ↔ schmidtSetup J points = .err "not-square") := by
+  refine ⟨rfl, ?_⟩
+  have := nonsquare_err ((points.map fun p => J p.1 p.2).toArray)
+  simpa [schmidtSetup] using this
+
 /-! ### non-vacuity -/
 
 /-- a concrete 2×2 non-zero array: the hypotheses of `one_le_K_le_n` are satisfiable -/
